@@ -834,7 +834,10 @@ class XPathToken(Token[ta.XPathTokenType]):
             return value
 
         type_name = type_name[3:].rstrip('+*?')
-        token = cast('XPathConstructor', self.parser.symbol_table[type_name](self.parser))
+        try:
+            token = cast('XPathConstructor', self.parser.symbol_table[type_name](self.parser))
+        except KeyError:
+            return value  # a type without a constructor function (xs:anyAtomicType): no cast
 
         def cast_value(v: Any) -> Any:
             try:
